@@ -66,3 +66,34 @@ Theorem C11_loc_unshifted_refuted : exists divs parts lo hi,
   truthful divs parts /\ slice_ok lo hi /\ loc_parts_unshifted divs parts lo hi <> loc_parts divs parts lo hi.
 Proof. exact loc_unshifted_refuted. Qed.
 Print Assumptions C11_loc_unshifted_refuted.
+
+(* nested heads / tails: the merge rule of the current source (_nested_selection, translated into GeneratedSource.v) is sound, and
+   only the row counts may be merged with min -- the outer head's npartitions is irrelevant (seed C11_b) *)
+From DX Require Import NestedHead SourceChecksHead.
+Theorem C11_src_nested_head_sound : forall (A : Type) (parts : list (list A)) k (n1 n2 : nat) n,
+  src_nested_selection (Z.of_nat n2) (Z.of_nat n1) = Some n ->
+  firstn n2 (head_rows parts k n1) = head_rows parts k (Z.to_nat n).
+Proof. exact src_nested_head_sound. Qed.
+Print Assumptions C11_src_nested_head_sound.
+
+Theorem C11_src_nested_head_neg_sound : forall (A : Type) (l : list A) (m1 m2 : nat) n, 1 <= m1 -> 1 <= m2 ->
+  src_nested_selection (- Z.of_nat m2) (- Z.of_nat m1) = Some n ->
+  head_neg (head_neg l m1) m2 = head_neg l (Z.to_nat (- n)).
+Proof. exact src_nested_head_neg_sound. Qed.
+Print Assumptions C11_src_nested_head_neg_sound.
+
+Theorem C11_src_nested_tail_sound : forall (A : Type) (l : list A) (n1 n2 : nat) n,
+  src_nested_selection (Z.of_nat n2) (Z.of_nat n1) = Some n ->
+  tail_rows (tail_rows l n1) n2 = tail_rows l (Z.to_nat n).
+Proof. exact src_nested_tail_sound. Qed.
+Print Assumptions C11_src_nested_tail_sound.
+
+Theorem C11_src_nested_mixed_not_merged : forall (n : nat) (m : nat), 1 <= m ->
+  src_nested_selection (- Z.of_nat m) (Z.of_nat n) = None /\ src_nested_selection (Z.of_nat n) (- Z.of_nat m) = None.
+Proof. exact src_nested_selection_mixed. Qed.
+Print Assumptions C11_src_nested_mixed_not_merged.
+
+Theorem C11_nested_head_min_npartitions_refuted : exists (parts : list (list nat)) k1 k2 n1 n2,
+  firstn n2 (head_rows parts k1 n1) <> head_rows parts (Nat.min k2 k1) (Nat.min n2 n1).
+Proof. exact nested_head_min_npartitions_refuted. Qed.
+Print Assumptions C11_nested_head_min_npartitions_refuted.
